@@ -8,6 +8,66 @@ import "github.com/DistCompiler/pgo/distsys/tla"
 
 func init() {
 	verifRegister("HarnessC05_HashMap", HarnessC05_HashMap)
+	verifRegister("HarnessC05_HashMapCollide", HarnessC05_HashMapCollide)
+}
+
+// Keys of DIFFERENT kinds whose 32-bit hashes really coincide (0, FALSE, {}, the empty function and the empty tuple
+// all hash to the hash of 0; 1 and TRUE coincide too): the bucket logic is exercised with concrete colliding keys, so
+// a counterexample replays natively (the symbolic harness below can only assume collisions through the uninterpreted
+// hash, which no concrete value reproduces).
+func c05Pool() []tla.Value {
+	return []tla.Value{tla.MakeNumber(0), tla.ModuleFALSE, tla.MakeSet(), tla.MakeRecord(nil), tla.MakeTuple(), tla.MakeNumber(1), tla.ModuleTRUE,
+		tla.MakeString("a"), tla.MakeTuple(tla.MakeString("a"))}
+}
+
+func HarnessC05_HashMapCollide() {
+	pool := c05Pool()
+	h := New[int32]()
+	const n = 4
+	var keys []tla.Value
+	var vals []int32
+	for i := 0; i < n; i++ {
+		k := pool[verifChoose("key", len(pool))]
+		v := verifNondetInt32("val")
+		h.Set(k, v)
+		found := false
+		for j := range keys {
+			if keys[j].Equal(k) {
+				vals[j], found = v, true
+			}
+		}
+		if !found {
+			keys, vals = append(keys, k), append(vals, v)
+		}
+	}
+	for _, k := range pool {
+		got, ok := h.Get(k)
+		want, has := int32(0), false
+		for j := range keys {
+			if keys[j].Equal(k) {
+				want, has = vals[j], true
+			}
+		}
+		verifAssert(ok == has && (!has || got == want), "Get agrees with Equal also among keys whose hashes collide")
+	}
+	listed := h.Keys()
+	verifAssert(len(listed) == len(keys), "Keys lists each distinct key once, also among keys whose hashes collide")
+	for _, k := range keys {
+		cnt := 0
+		for _, l := range listed {
+			if l.Equal(k) {
+				cnt++
+			}
+		}
+		verifAssert(cnt == 1, "every key that was set is listed by Keys exactly once")
+	}
+	h.Clear()
+	verifAssert(len(h.Keys()) == 0, "Clear empties the map")
+	for _, k := range pool {
+		_, ok := h.Get(k)
+		verifAssert(!ok, "Clear empties the map (no key is found afterwards)")
+	}
+	verifReach("end")
 }
 
 func c05Key(tag string, kind int) tla.Value {
